@@ -295,4 +295,37 @@ example : AgreesWithTruth rustSyn "/* a /* b */ c */\nlet s = \"/* x\"; // y".to
 example : AgreesWithTruth cSyn "// sloc-guard:ignore-next 1\nint x;\nint y;".toList
     [.comment, .ignored, .code] := by decide
 
+/-! ### the repaired start line (fix c10877c): only what follows the opener can close the comment -/
+
+/-- for markers that differ, `after_start` is exactly the text behind the matched opener:
+    nothing before it, and no character of the opener itself, takes part in the end search -/
+theorem afterStart_is_rest (m : StartMatch) (pre rest : List Char)
+    (hpos : m.pos = pre.length) (hdyn : m.dynEnd = none) (hne : m.entry.start ≠ m.entry.stop) :
+    m.afterStart (pre ++ m.entry.start ++ rest) = rest := by
+  unfold StartMatch.afterStart StartMatch.endMarker
+  simp only [hdyn, Option.getD_none, hne, if_false, hpos]
+  rw [List.append_assoc, List.drop_append]
+  simp
+
+/-- a non-nesting block comment with distinct markers stays open after its first line exactly
+    when the end marker does not occur (outside strings) behind the opener -/
+theorem enter_iff_no_end_after_start (m : StartMatch) (pre rest : List Char)
+    (hpos : m.pos = pre.length) (hdyn : m.dynEnd = none) (hne : m.entry.start ≠ m.entry.stop)
+    (hnest : m.entry.nesting = false) :
+    enterFrom (pre ++ m.entry.start ++ rest) m .notIn =
+      if containsEnd rest m.entry.stop then .notIn else .inComment 1 m.entry.start m.entry.stop false := by
+  unfold enterFrom
+  simp only [hnest, Bool.false_eq_true, if_false, afterStart_is_rest m pre rest hpos hdyn hne]
+  simp only [StartMatch.endMarker, hdyn, Option.getD_none, MLState.enter]
+  cases containsEnd rest m.entry.stop <;> simp
+
+/-- `/*/ x` opens a comment (the `*/` that overlaps the opener is not an end), and the code after
+    the real end is code again; Lua: a `]]` in the code before `--[[` does not close it -/
+example : AgreesWithTruth cSyn "/*/ x
+ y
+ */
+int z;".toList [.comment, .comment, .comment, .code] := by decide
+example : AgreesWithTruth cSyn "/**/ int z;
+int w;".toList [.comment, .code] := by decide
+
 end SlocModel.Props.C02
